@@ -24,7 +24,7 @@ class C17(SolveProperty):
 
     def cases(self, tier, rng):
         base = []
-        nfw = 60 if tier == "quick" else 6000
+        nfw = 120 if tier == "quick" else 6000
         combos = self.combos()
         for _ in range(nfw):
             n, atts = gen.random_framework(rng, 7)
@@ -232,7 +232,7 @@ class C06(SolveProperty):
 
     def cases(self, tier, rng):
         lines = []
-        nfw = 150 if tier == "quick" else 15000
+        nfw = 350 if tier == "quick" else 15000
         for _ in range(nfw):
             n, atts = gen.random_framework(rng, 7)
             if n == 0:
